@@ -113,7 +113,7 @@ func runC05(ctx *Ctx) {
 	}
 	var deadline time.Time
 	if !ctx.Thorough {
-		deadline = time.Now().Add(60 * time.Second)
+		deadline = time.Now().Add(10 * time.Minute)
 	} else {
 		deadline = time.Now().Add(12 * time.Minute)
 	}
